@@ -1,0 +1,77 @@
+//go:build verif
+
+// Contracts for the gowp verifier (/verif). Comment-only file: compiled only with -tags verif and
+// contributes no code either way.
+
+package htlcswitch
+
+//@ func ExpectedFee
+//@   props C09
+//@   requires htlcAmt <= 1<<40 && f.FeeRate <= 1000000 && f.BaseFee < 1<<32
+//@   ensures  result == models.outFee(f.BaseFee, f.FeeRate, htlcAmt)
+//@   nowrap
+//@   modifies nothing
+//@   replay scalar
+//@
+//@ spec func feeOK(inAmt int, out int, base int, rate int, ib int, ir int) bool =
+//@        inAmt >= out && inAmt-out >= models.inFee(ib, ir, out+models.outFee(base, rate, out)) + models.outFee(base, rate, out)
+//@ spec func amtOK(out int, mn int, mx int) bool = out >= mn && (mx == 0 || out <= mx)
+//@ spec func expiryOK(eo int, h int, rej int, maxc int) bool = eo > h+rej && eo <= h+maxc
+//@ spec func deltaOK(ei int, eo int, tld int, maxc int) bool = ei >= eo && ei-eo >= tld && ei-eo <= maxc
+//@
+//@ func NewLinkError
+//@   props C09
+//@   ensures result != nil
+//@
+//@ func NewDetailedLinkError
+//@   props C09
+//@   ensures result != nil
+//@
+//@ func (l *channelLink) validateHtlcAmount
+//@   props C09
+//@   requires l.cfg.AuxTrafficShaper.IsNone()
+//@   ensures  result == nil ==> amtOK(amt, policy.MinHTLCOut, policy.MaxHTLC)
+//@   site call lnwire.NewAmountBelowMinimum:      assert amt < policy.MinHTLCOut
+//@   site call lnwire.NewTemporaryChannelFailure: assert policy.MaxHTLC != 0 && amt > policy.MaxHTLC
+//@   covers-nonnil-returns
+//@
+//@ func (l *channelLink) canSendHtlc
+//@   props C09
+//@   requires l.cfg.AuxTrafficShaper.IsNone()
+//@   requires heightNow + l.cfg.OutgoingCltvRejectDelta < 1<<32 && heightNow + l.cfg.MaxOutgoingCltvExpiry < 1<<32
+//@   ensures  result == nil ==> amtOK(amt, policy.MinHTLCOut, policy.MaxHTLC) &&
+//@            expiryOK(timeout, heightNow, old(l.cfg.OutgoingCltvRejectDelta), old(l.cfg.MaxOutgoingCltvExpiry))
+//@   site call lnwire.NewExpiryTooSoon:           assert timeout <= heightNow + l.cfg.OutgoingCltvRejectDelta
+//@   site alloc lnwire.FailExpiryTooFar:          assert timeout > heightNow + l.cfg.MaxOutgoingCltvExpiry
+//@   site call lnwire.NewTemporaryChannelFailure: assert amt > availableBandwidth
+//@   site return nil:                             assert amt <= availableBandwidth
+//@   covers-nonnil-returns except ret(validateHtlcAmount)
+//@   nowrap
+//@
+//@ func (l *channelLink) CheckHtlcForward
+//@   props C09
+//@   let p = old(l.cfg.FwrdingPolicy)
+//@   requires l.cfg.AuxTrafficShaper.IsNone()
+//@   requires incomingHtlcAmt <= 1<<40 && amtToForward <= 1<<40
+//@   requires l.cfg.FwrdingPolicy.FeeRate <= 1000000 && l.cfg.FwrdingPolicy.BaseFee < 1<<32
+//@   requires -1000000 <= inboundFee.Rate && inboundFee.Rate <= 1000000
+//@   requires heightNow + l.cfg.OutgoingCltvRejectDelta < 1<<32 && heightNow + l.cfg.MaxOutgoingCltvExpiry < 1<<32
+//@   ensures  result == nil ==>
+//@            feeOK(incomingHtlcAmt, amtToForward, p.BaseFee, p.FeeRate, inboundFee.Base, inboundFee.Rate) &&
+//@            amtOK(amtToForward, p.MinHTLCOut, p.MaxHTLC) &&
+//@            expiryOK(outgoingTimeout, heightNow, old(l.cfg.OutgoingCltvRejectDelta), old(l.cfg.MaxOutgoingCltvExpiry)) &&
+//@            deltaOK(incomingTimeout, outgoingTimeout, p.TimeLockDelta, old(l.cfg.MaxOutgoingCltvExpiry))
+//@   site call lnwire.NewFeeInsufficient:     assert !feeOK(incomingHtlcAmt, amtToForward, policy.BaseFee, policy.FeeRate, inboundFee.Base, inboundFee.Rate)
+//@   site call lnwire.NewIncorrectCltvExpiry: assert incomingTimeout < outgoingTimeout || incomingTimeout-outgoingTimeout < policy.TimeLockDelta
+//@   site alloc lnwire.FailExpiryTooFar:      assert incomingTimeout-outgoingTimeout > l.cfg.MaxOutgoingCltvExpiry
+//@   covers-nonnil-returns except ret(canSendHtlc)
+//@   nowrap
+//@
+//@ func (l *channelLink) CheckHtlcTransit
+//@   props C09
+//@   let p = old(l.cfg.FwrdingPolicy)
+//@   requires l.cfg.AuxTrafficShaper.IsNone()
+//@   requires heightNow + l.cfg.OutgoingCltvRejectDelta < 1<<32 && heightNow + l.cfg.MaxOutgoingCltvExpiry < 1<<32
+//@   ensures  result == nil ==> amtOK(amt, p.MinHTLCOut, p.MaxHTLC) &&
+//@            expiryOK(timeout, heightNow, old(l.cfg.OutgoingCltvRejectDelta), old(l.cfg.MaxOutgoingCltvExpiry))
+//@   nowrap
